@@ -179,8 +179,12 @@ def wrap_obligations(rep):
             rep.proved(oid, 'frames', 'override consults self.parentheses', function=f'{m}:{c}.to_string', clause='an overriding to_string keeps user-written parentheses')
         else:
             rp = replay_rt(sample, 'mindsdb') if sample else {'input': None, 'observed': 'class is not produced in an expression position by any grammar rule tried'}
-            if rp.get('fires') is False:
-                rp = {'input': None, 'observed': rp['observed']}
+            if rp.get('fires') is not True:
+                # the reading of the source did not find the parentheses handling (it may live in a helper) and no statement shows parentheses being
+                # dropped: not established, not refuted
+                rep.undecided(oid, 'frames', f'{c}.to_string overrides the wrapper; that it keeps user-written parentheses could not be read off its source ({rp.get("observed")})',
+                              function=f'{m}:{c}.to_string', clause='an overriding to_string keeps user-written parentheses')
+                continue
             rep.failed(oid, 'frames', f'{c}.to_string overrides the wrapper and never looks at self.parentheses (user-written parentheses around it are dropped)',
                        function=f'{m}:{c}.to_string', clause='an overriding to_string keeps user-written parentheses', replay=rp)
 
